@@ -449,6 +449,14 @@ let run_ksim (dump : Stdlib.String.t list) (hist : Stdlib.String.t) (out : Buffe
   let pending = ref [] in
   let loop_mode = ref None in
   let iter_open = ref false in
+  let dump_macros () =
+    let ms = List.sort (fun (a, _) (b, _) -> compare (int_of_n a) (int_of_n b)) (!k).k_dyn_macros in
+    List.iter (fun (id, items) ->
+      let f = function
+        | DMPress (kc, d) -> Printf.sprintf "P%d,%d" (int_of_n kc) (int_of_n d)
+        | DMRelease (kc, d) -> Printf.sprintf "R%d,%d" (int_of_n kc) (int_of_n d)
+        | DMEnd i -> Printf.sprintf "E%d" (int_of_n i) in
+      Buffer.add_string out (Printf.sprintf "DM@%d %d : %s\n" !tick (int_of_n id) (String.concat " " (List.map f items)))) ms in
   (try
     List.iter (fun tok ->
       if tok <> "" then begin
@@ -481,13 +489,7 @@ let run_ksim (dump : Stdlib.String.t list) (hist : Stdlib.String.t) (out : Buffe
           let (k', block) = k_can_block cfg !k (n_of_int 1) in
           k := k';
           Buffer.add_string out (Printf.sprintf "Q@%d idle=%d block=%d\n" !tick (if idle then 1 else 0) (if block then 1 else 0));
-          let ms = List.sort (fun (a, _) (b, _) -> compare (int_of_n a) (int_of_n b)) (!k).k_dyn_macros in
-          List.iter (fun (id, items) ->
-            let f = function
-              | DMPress (kc, d) -> Printf.sprintf "P%d,%d" (int_of_n kc) (int_of_n d)
-              | DMRelease (kc, d) -> Printf.sprintf "R%d,%d" (int_of_n kc) (int_of_n d)
-              | DMEnd i -> Printf.sprintf "E%d" (int_of_n i) in
-            Buffer.add_string out (Printf.sprintf "DM@%d %d : %s\n" !tick (int_of_n id) (String.concat " " (List.map f items)))) ms
+          dump_macros ()
         | 't' ->
           for _ = 1 to int_of_string rest do
             let blocked = (match !loop_mode with
@@ -509,6 +511,7 @@ let run_ksim (dump : Stdlib.String.t list) (hist : Stdlib.String.t) (out : Buffe
         | _ -> failwith ("bad history token " ^ tok)
       end) (String.split_on_char ' ' hist);
     if !pending <> [] then Buffer.add_string out (Printf.sprintf "@%d+ %s\n" !tick (String.concat " " !pending));
+    dump_macros ();
     let kv = !k in
     let sc = (match kv.k_scroll with Some _ -> 1 | None -> 0) + (match kv.k_hscroll with Some _ -> 1 | None -> 0) in
     let mv = (match kv.k_mmv with Some _ -> 1 | None -> 0) + (match kv.k_mmh with Some _ -> 1 | None -> 0) in
